@@ -9,7 +9,10 @@
 #ifndef STR_INHIBIT_LIBCALL_H_
 #define STR_INHIBIT_LIBCALL_H_
 
-#ifdef HAVE_CC_INHIBIT_LOOP_TO_LIBCALL
+/* GCC (not clang, which does not know the attribute) recognises a byte-fill or
+ * byte-copy loop and replaces it by a call to memset()/memcpy() - inside
+ * memset() itself that call is the function calling itself for ever. */
+#if defined(HAVE_CC_INHIBIT_LOOP_TO_LIBCALL) || (defined(__GNUC__) && !defined(__clang__))
 # define inhibit_loop_to_libcall \
 	    __attribute__ ((__optimize__ ("-fno-tree-loop-distribute-patterns")))
 #else
